@@ -12,7 +12,7 @@ NPROC = 16
 TRUSTED = [
     "Coq 8.16.1 kernel (coqc; vm_compute only for the Examples / refutation witnesses); no axioms "
     "(Print Assumptions: closed under the global context)",
-    "ConcTower.v: hand-written thread programs of register / add_appointment / get_appointment / block connected / block "
+    "ConcTower.v: hand-written thread programs of register / add_appointment / get_appointment / get_subscription_info / block connected / block "
     "disconnected at lock-acquisition granularity (guard lifetimes read off watcher.rs, gatekeeper.rs, responder.rs, carrier.rs, "
     "api/internal.rs), action bodies = Tower.v's definitions; ConcTowerProofs.exec_is_step proves that a program run without "
     "interference is Tower.v's sequential step; interleaving semantics run_sched (event granularity), run_coarse (one letter per "
@@ -20,7 +20,8 @@ TRUSTED = [
     "proofs: ConcTowerProofs.v (structural theorem g_thread: a guarantee of the ~20 primitive actions lifts to every action of every "
     "thread program; instances: SQL-statement sequences / DbInv, lock_protects_data; mutual exclusion; invariance over all schedules), "
     "ConcBreach.v (Owicki-Gries outline of add_appointment || block connected: accepted_then_watched_or_gone), ConcLin.v (read-only "
-    "threads; witnesses by vm_compute), ConcReg.v (any number of concurrent registrations are linearizable)",
+    "threads; a thread only panics at its own sites; witnesses by vm_compute), ConcReg.v (any number of concurrent registrations are "
+    "linearizable), ConcPurge.v (Owicki-Gries outline of register || the gatekeeper's purge: an acknowledged registration survives)",
     "the tie of the thread programs to the code: hook H3 (teos/src/verif_sync.rs) in CONTROLLED mode — harness/src/bin/conc parks "
     "every thread in before_acquire and grants one lock request at a time, so a schedule (one thread index per lock "
     "acquisition) is replayed exactly on the real Gatekeeper/Watcher/Responder/Carrier/InternalAPI (harness/src/world.rs, "
@@ -42,9 +43,6 @@ TRUSTED = [
 # while the REAL code shows it (class of the monitor failure observed on the implementation's runs)
 REFUTATIONS = {
     "C10_single_charge_refuted": "ledger:same-appointment-submitted-concurrently",
-    "C10_register_purge_not_linearizable": "serial:mem.rows,users.rows",
-    "C10_get_purge_aborts": "panic:S_api_expired_unwrap",
-    "C10_add_purge_aborts_and_poisons": "panic:S_gk_charge_user_unwrap",
     "C10_add_connect_not_linearizable": "serial:height-stamps-only",
 }
 
@@ -149,7 +147,8 @@ def run(ctx):
             cov["rule"] = (
                 "for every case (a reachable pre-state built by sequential operations + two or three operations drawn from register new/"
                 "existing, add_appointment new/update/other user/undecryptable/trigger-in-cache with the node answering ok, in-mempool, "
-                "-26, -27, get_appointment, block connected with the dispute / empty / completing a tracker / purging the user, block "
+                "-26, -27, get_appointment, get_subscription_info, block connected with the dispute / empty / completing a tracker / purging "
+                "the user / at whose height the user's subscription expires (gatekeeper already at h, watcher still at h-1), block "
                 "disconnected, disconnect-then-connect on the monitor thread): ALL schedules at lock-acquisition granularity with at most "
                 "`preemption_bound` preemptions (a preemption = switching away from a thread that could have continued), enumerated by "
                 "stateless depth-first search on the real tower, plus every sequential order of the same operations on the real tower; "
